@@ -1,0 +1,7 @@
+//go:build !verif
+
+package observation
+
+import "time"
+
+func verifNow(now time.Time) time.Time { return now }
